@@ -21,6 +21,7 @@ CONSTANTS NV,            \* number of validators
           QuorumRule,    \* "exact" (3*c > 2*t) | "floor_first" (c > (t \div 3) * 2, the pre-fix code)
           CountDuplicates,  \* TRUE: a validator listed twice is counted twice (the pre-fix code)
           DropOnMismatch,   \* FALSE: metadata with wrong hash / chain id is logged but kept (the pre-fix code)
+          PowerCap,      \* u64::MAX in units of the power scale (total voting power above it overflows)
           Part           \* "commit" | "pipeline"
 
 Val == 1..NV
@@ -37,8 +38,10 @@ Entry(v, k) == [v |-> v, kind |-> k]
 VARIABLES powers,   \* [Val -> 1..MaxPower]
           commit,   \* Seq(Entry)
           meta,     \* [hash: {"h","x"}, chain: {"c","y"}]      the metadata blob (pipeline part)
-          rblob     \* [hash: {"h","x","-"}, proof: {"ok","bad"}, rid: {"target","other"}]   ("-": no rollup blob)
-vars == <<powers, commit, meta, rblob>>
+          rblob,    \* [hash: {"h","x","-"}, proof: {"ok","bad"}, rid: {"target","other"}]   ("-": no rollup blob)
+          junk      \* "none" | "before" | "after": a further well-formed rollup-data entry naming the metadata's
+                    \* block hash but failing the Merkle audit, placed before / after the genuine one
+vars == <<powers, commit, meta, rblob, junk>>
 
 OwnSlots == [Val -> SlotKinds]
 ExtraEntries(slots) ==
@@ -57,10 +60,12 @@ Init ==
               commit = [v \in Val |-> Entry(v, slots[v])] \o ex
          /\ meta = [hash |-> "h", chain |-> "c"]
          /\ rblob = [hash |-> "-", proof |-> "ok", rid |-> "target"]
+         /\ junk = "none"
     ELSE /\ powers = [v \in Val |-> 1]
          /\ commit \in {AllSign, NoneSign}
          /\ meta \in [hash : {"h", "x"}, chain : {"c", "y"}]
          /\ rblob \in [hash : {"h", "x", "-"}, proof : {"ok", "bad"}, rid : {"target", "other"}]
+         /\ junk \in {"none", "before", "after"}
 
 Next == UNCHANGED vars
 Spec == Init /\ [][Next]_vars
@@ -88,7 +93,8 @@ HasQuorum(c, t) == IF QuorumRule = "exact" THEN 3 * c > 2 * t
 \* Result of ensure_commit_has_quorum: "ok" or the error name
 CommitVerdict ==
   LET f == Fold(commit, 0, {}) IN
-  IF f.err # "none" THEN f.err
+  IF Total > PowerCap THEN "TotalVotingPowerOverflowed"      \* checked_add over the validator set, before any vote
+  ELSE IF f.err # "none" THEN f.err
   ELSE IF f.power > Total THEN "CommitVotingPowerExceedsTotal"
   ELSE IF HasQuorum(f.power, Total) THEN "ok" ELSE "NoQuorum"
 
@@ -114,6 +120,8 @@ MetaKept == /\ CommitVerdict = "ok"
 RollupAttached == /\ MetaKept /\ rblob.hash = meta.hash /\ rblob.proof = "ok"
 \* metadata lists the target rollup iff a rollup blob for it was submitted with it ("rid" = "target")
 MetaContainsTarget == rblob.hash # "-" /\ rblob.rid = "target"
+\* Junk entries never bind (their audit fails) and a failed audit leaves the header in place, so they change
+\* nothing: Reconstructed does not mention `junk`.  The harness nevertheless places one and requires the same result.
 \* what reconstruct_blocks_from_verified_blobs yields: "none" | "empty" (block without data) | "with_data"
 \* (a rollup blob of another rollup is never fetched into the rollup namespace, so rid = "other" here
 \*  stands for "no blob of ours, and the metadata does not list us")
@@ -128,6 +136,7 @@ DataOnlyIfBound == Reconstructed = "with_data" => (rblob.hash = meta.hash /\ rbl
 
 -----------------------------------------------------------------------------
 Export == PrintT(<<"T", ToJson([part |-> Part, powers |-> powers, commit |-> commit, meta |-> meta, rblob |-> rblob,
+                                junk |-> junk,
                                 verdict |-> CommitVerdict, reconstructed |-> Reconstructed,
                                 nontrivial |-> (\E i \in 1..Len(commit) : commit[i].kind \notin {"absent", "nil"})])>>)
 =============================================================================
